@@ -659,12 +659,19 @@ fn gen_params(w: &mut Rng) -> ParamSpec {
     if dof == 5 || w.chance(0.1) {
         signs[5] = 0;
     }
-    ParamSpec {
-        geo: std::array::from_fn(|_| len(w)),
-        offsets: std::array::from_fn(|_| off(w)),
-        signs,
-        dof,
+    let mut geo: [f64; 7] = std::array::from_fn(|_| len(w));
+    // a robot described in another unit of length (whole millimetres or centimetres), and very
+    // small / very large values: the file format carries numbers, not units
+    match w.below(12) {
+        0 => geo = std::array::from_fn(|_| (w.range_usize(0, 3000) as f64 - 400.0).round()),
+        1 => geo = std::array::from_fn(|_| w.range_usize(0, 250) as f64),
+        2 => {
+            let k = w.below(7);
+            geo[k] = *w.pick(&[10.0, -10.0, 11.0, 100.0, 1000.0, 1e6, 12345.678, 1e-6, -2.5e-5, 1e9, 9007199254740992.0]);
+        }
+        _ => {}
     }
+    ParamSpec { geo, offsets: std::array::from_fn(|_| off(w)), signs, dof }
 }
 
 fn gen_variant(w: &mut Rng) -> Variant {
